@@ -50,7 +50,7 @@ def isLineFolded (d : Bytes) : Option Bool :=
 
 /-- htp_convert_method_to_number over the generated method table -/
 def methodNumber (m : Bytes) : Nat :=
-  match methodTable.find? (fun (n, _) => strBytes n == m) with
+  match methodTableBytes.find? (fun (n, _) => n == m) with
   | some (_, k) => k
   | none => methodUnknown
 
@@ -326,7 +326,7 @@ inductive AuthResult where
 
 /-- htp_parse_authorization on the Authorization header value (allocation succeeds) -/
 def parseAuthorization (v : Bytes) : AuthResult :=
-  if Bstr.beginsWithMemNocase v (strBytes "basic") then
+  if Bstr.beginsWithMemNocase v (b!"basic") then
     let rest := (v.drop 5).dropWhile cIsspace
     if rest.length == 0 then .declined 2 else
     match base64DecodeMem rest with
@@ -335,8 +335,8 @@ def parseAuthorization (v : Bytes) : AuthResult :=
       match Bstr.indexOfMem dec [0x3a] with
       | none => .declined 2
       | some i => .ok 2 (some (dec.take i)) (some (dec.drop (i + 1)))
-  else if Bstr.beginsWithMemNocase v (strBytes "digest") then
-    match Bstr.indexOfMem v (strBytes "username=") with
+  else if Bstr.beginsWithMemNocase v (b!"digest") then
+    match Bstr.indexOfMem v (b!"username=") with
     | none => .declined 3
     | some i =>
       let rest := (v.drop (i + 9)).dropWhile cIsspace
@@ -347,7 +347,7 @@ def parseAuthorization (v : Bytes) : AuthResult :=
         match extractQuotedString rest with
         | some u => .ok 3 (some u) none
         | none => .declined 3
-  else if Bstr.beginsWithMemNocase v (strBytes "bearer") then
+  else if Bstr.beginsWithMemNocase v (b!"bearer") then
     let rest := (v.drop 6).dropWhile cIsspace
     if rest.length == 0 then .declined 4 else .ok 4 none none
   else .ok 9 none none
